@@ -1122,9 +1122,17 @@ def gen_level_edge(rng, tier, sort=None, unint=None, algo="greedy", deltas=None)
             sess.append(dict(st=st, sid=100 + n_ * 7 + rng.randint(0, 5), req=float(rng.choice([20, 30, 45.5])),
                              deliv=float(rng.choice([0.0, 1.25, 3.0])), arr=arrs[n_], dep=dep,
                              edep=dep + rng.randint(-1, 6) if rng.random() < 0.5 else dep, mins=0, maxs=INF))
+        nozero = rng.random() < 0.35
+        if nozero:
+            # level tables WITHOUT 0 (legal: "a pilot of 0 is allowed regardless of the table"; FiniteRatesEVSE always adds
+            # 0, a hand-built InfrastructureInfo need not): the lowest level lies above the rate the station holds
+            for i in range(N):
+                if not cont[i]:
+                    allow[i] = [a for a in allow[i] if a > 0]
+                    etype[i] = "Fn"
         scn = dict(infra=infra, period=period, now=now, sessions=sess, algo=algo,
                    sort=sort or rng.choice(SORTS), est=None,
-                   unint=(rng.random() < 0.3) if unint is None else unint, inc=rng.choice([0.5, 1.0]), edge=None)
+                   unint=((rng.random() < 0.3) if unint is None else unint) and not nozero, inc=rng.choice([0.5, 1.0]), edge=None)
         tw = Twin(scn)
         try:
             q = tw.sort(tw.preprocess())
@@ -1149,6 +1157,10 @@ def gen_level_edge(rng, tier, sort=None, unint=None, algo="greedy", deltas=None)
             continue
         target = rng.choice(levels)
         delta = rng.choice(deltas or EDGE_DELTAS)
+        if nozero and rng.random() < 0.8:
+            # the head-room left by the higher-priority sessions is smaller than the station's LOWEST level
+            target = min(levels)
+            delta = rng.choice([0.5, 2.0, 5.0, 1e-3, 0.25 * target, 0.9 * target])
         cosv = [math.cos(math.radians(p)) for p in phases]
         sinv = [math.sin(math.radians(p)) for p in phases]
         x[i] = target - delta
